@@ -404,6 +404,24 @@ structure LoopSt where
   last : Char := Char.ofNat 0    -- `lastRune`
 deriving Repr, Inhabited
 
+/-- `trimWhitespaceIfAble`: self-closing markers that are not replacement markers trim by default; a `trimwhitespace`
+property overrides and has to be a boolean; nothing is trimmed unless the marker is at the start of the text or preceded
+by white space -/
+def decideTrim (hadWs isRepl : Bool) (m : Marker) : P Bool :=
+  if hadWs then
+    match getProp m.props "trimwhitespace" with
+    | some (.bool b) => pure b
+    | some _ => fail
+    | none => pure (m.tag == .selfClose && !isRepl)
+  else pure false
+
+/-- `if trimWhitespaceIfAble { if peekWhitespace() { ReadRune(); sourcePosition++ } }` -/
+def trimOne (trim : Bool) : P Unit := do
+  if trim && isSpace (← peekRune) then
+    match ← readRune with
+    | none => pure ()            -- EOF: `peekWhitespace` reports no match (rune 0 is not a space)
+    | some _ => incSrc
+
 /-- the body of `if nextRune == '['` after `lineParser.position = len([]rune(builder.String()))`: parse the marker, run its
 processor, decide about the white space after it; `lastRune` becomes `[` -/
 def markerStep (pfuel : Nat) (st : LoopSt) : P LoopSt := do
@@ -411,16 +429,8 @@ def markerStep (pfuel : Nat) (st : LoopSt) : P LoopSt := do
   let hadWs := (← getPos) == 0 || isSpace st.last
   let isRepl := isReplacement m.name
   let replText ← (if isRepl then processReplacementMarker m else pure "" : P String)
-  let trim ← (if hadWs then
-      match getProp m.props "trimwhitespace" with
-      | some (.bool b) => pure b
-      | some _ => fail
-      | none => pure (m.tag == .selfClose && !isRepl)
-    else pure false : P Bool)
-  if trim && isSpace (← peekRune) then
-    match ← readRune with
-    | none => pure ()            -- EOF: `peekWhitespace` reports no match (rune 0 is not a space)
-    | some _ => incSrc
+  let trim ← decideTrim hadWs isRepl m
+  trimOne trim
   pure { out := st.out ++ replText.toList, markers := st.markers ++ [m], last := '[' }
 
 def mainLoop (pfuel : Nat) : Nat → LoopSt → P LoopSt
